@@ -20,7 +20,7 @@ class C02(CheckBase):
                            'MessageReader (MDIB file)'], 'stub': []}
     assumptions = ['CPython GIL semantics; pre-emption only at synchronisation points and (sampled) Python lines of '
                    'sdc11073/mdib and multikey.py', 'canonical snapshots walk the library\'s own _props metadata']
-    expected_probes = ['commits', 'aborted', 'empty', 'recreate']
+    expected_probes = ['commits', 'aborted', 'empty', 'recreate', 'stale_entity_writes']
 
     def budget(self, tier):
         return {'quick': {'runs': 1200, 'wall': 70}, 'thorough': {'runs': 40000, 'wall': 1200}}[tier]
@@ -28,16 +28,15 @@ class C02(CheckBase):
     def generate(self, rng, tier):
         which = rng.choice(['tns', 'tns', 'two'])
         g = W.Gen(rng, which, validate=False)
+        g.p_stale = rng.choice([0.0, 0.2, 0.5])
         n = rng.randint(8, 60 if tier == 'thorough' else 35)
         writers = rng.choice([1, 1, 2, 3, 4])
         ops = []
         for _ in range(n):
-            op = g.gen_op()
+            op = g.gen_op(p_abort=0.12)
             if op is None:
                 continue
             op['w'] = rng.randrange(writers)
-            if rng.random() < 0.12:
-                op['abort_at'] = rng.randrange(W.body_steps(op))
             ops.append(op)
         return {'sched': draw_sched_config(rng), 'mdib': which, 'writers': writers, 'ops': ops}
 
@@ -57,6 +56,9 @@ class C02(CheckBase):
                 kind, h, _ = r[0]
                 deleted = {d.Handle for d in tr.descr_deleted}
                 sig = kind
+                if kind == 'orphan-descriptor':
+                    d = mdib.descriptions.handle.get_one(h, allow_none=True)
+                    h = d.parent_handle if d is not None else h
                 if kind.startswith('orphan') and h in deleted:
                     # the same transaction deleted the descriptor (sub-tree) and created / updated something inside it
                     sig = kind + ':touched-inside-subtree-deleted-by-same-transaction'
@@ -65,11 +67,12 @@ class C02(CheckBase):
         hist.on_commit = after_commit_checks
 
         def writer(w):
+            cache = {}
             for op in plan['ops']:
                 if op.get('w', 0) != w:
                     continue
                 s.reseed('op', op['id'])
-                env = W.Env(crash_at=op.get('abort_at'))
+                env = W.Env(crash_at=op.get('abort_at'), cache=cache)
                 try:
                     W.apply_op(mdib, op, env)
                 except W.OpRejected:
@@ -78,8 +81,10 @@ class C02(CheckBase):
                 except W.InjectedCrash:
                     lock_stats['aborted'] += 1
                     ctx.probe('aborted')
-                if mdib.current_transaction is not None and False:
-                    pass
+                if env.stale_used:
+                    ctx.probe('stale_entity_writes', env.stale_used)
+                if env.stale_outdated:
+                    ctx.probe('stale_entity_outdated_descriptor_version', env.stale_outdated)
 
         nw = plan['writers']
         if nw == 1:
